@@ -22,6 +22,8 @@ gen_cases = None
 def gen_cases(rng, tier, count=None):
     count = count or (220 if tier == "quick" else 4000)
     out = []
+    for i in range(4 if tier == "quick" else 48):
+        out.append(TS.long_case(rng, tier, ["HCT", "VHCT"][i % 2]))
     for i in range(count):
         if i % 5 == 4:
             out.append(TS.wrapper_case(rng, tier))
